@@ -1,6 +1,7 @@
 (* C20 — Bit sets and fixed arrays behave like their mathematical models. Theorems only. *)
 From Coq Require Import List NArith Arith Bool.
-From FFSM2 Require Import Model.BitArray Model.Arrays Proofs.BitArrayProofs Proofs.ArraysProofs.
+From Coq Require Import ZArith.
+From FFSM2 Require Import Model.BitArray Model.Arrays Proofs.BitArrayProofs Proofs.ArraysProofs Model.Cxx Generated.LeafCode Proofs.LeafCodeProofs.
 Import ListNotations.
 
 Section BitSet.
@@ -78,6 +79,33 @@ End FixedArrays.
 Print Assumptions C20_static_get_set. Print Assumptions C20_static_fill. Print Assumptions C20_static_clear.
 Print Assumptions C20_static_elements. Print Assumptions C20_dynamic_emplace. Print Assumptions C20_dynamic_clear.
 Print Assumptions C20_dynamic_iteration. Print Assumptions C20_dynamic_append_all.
+
+(* The tie to the source, by proof: Generated/LeafCode.v holds the bodies of BitArrayT<N>::get/set/clear(index) as clang's typed
+   AST of /repo's current bit_array.inl gives them (tools/leafcode.py, regenerated on every run; N symbolic, Index = uint8_t, i.e.
+   every N up to 255).  Run in the interpreter of Model/Cxx.v (C++ integer semantics) on arbitrary storage and any index below the
+   capacity they never fault (no out-of-range unit, no undefined shift) and compute exactly the model's ba_get / ba_set / ba_clear,
+   so the laws above are laws of the code that is in /repo now. *)
+Section SourceTie.
+Local Open Scope Z_scope.
+Theorem C20_source_get_is_the_model : forall cap b n, 1 <= cap <= 255 -> Forall (fun x => (x < 256)%N) b ->
+  Z.of_nat (length b) = (cap + 7) / 8 -> Z.of_N n < cap ->
+  result (run leaf_ftable (ba_consts cap) BitArrayT_13__get_u32 [Z.of_N n] [] (ba_obj b))
+  = Some (Some (b2z (ba_get b n)), [], (ba_obj b)).
+Proof. exact src_BitArray_get. Qed.
+Print Assumptions C20_source_get_is_the_model.
+Theorem C20_source_set_is_the_model : forall cap b n, 1 <= cap <= 255 -> Forall (fun x => (x < 256)%N) b ->
+  Z.of_nat (length b) = (cap + 7) / 8 -> Z.of_N n < cap ->
+  result (run leaf_ftable (ba_consts cap) BitArrayT_13__set_u32 [Z.of_N n] [] (ba_obj b))
+  = Some (None, [], (ba_obj (ba_set b n))).
+Proof. exact src_BitArray_set. Qed.
+Print Assumptions C20_source_set_is_the_model.
+Theorem C20_source_clear_is_the_model : forall cap b n, 1 <= cap <= 255 -> Forall (fun x => (x < 256)%N) b ->
+  Z.of_nat (length b) = (cap + 7) / 8 -> Z.of_N n < cap ->
+  result (run leaf_ftable (ba_consts cap) BitArrayT_13__clear_u32 [Z.of_N n] [] (ba_obj b))
+  = Some (None, [], (ba_obj (ba_clear b n))).
+Proof. exact src_BitArray_clear. Qed.
+Print Assumptions C20_source_clear_is_the_model.
+End SourceTie.
 
 (* non-vacuity: capacity 12, set-all then clear every index: empty (the history that failed before the repair) *)
 Example C20_nonvacuous :
